@@ -921,6 +921,19 @@ func adminsOf(t *Tenant) []string {
 
 // ---------- C10 ----------
 
+// monC10params: the supported chains are what governance set them to, whatever it does to another parameter
+func monC10params(tr *Trace, br map[string]int) (out []Violation) {
+	walk(tr, func(c *ctxStep) {
+		if c.op[0] == "setprices" {
+			br["c10:prices-changed"]++
+			if strings.Join(c.pre.Chains, ",") != strings.Join(c.post.Chains, ",") {
+				out = append(out, viol("C10", "supported-chains-replaced", c.i, "a change of the gas prices (%s) turned the supported chains %v into %v", strings.Join(c.op, " "), c.pre.Chains, c.post.Chains))
+			}
+		}
+	})
+	return out
+}
+
 func monC10(tr *Trace, br map[string]int) (out []Violation) {
 	owners := map[string]string{} // contract40|tokenValue -> owner token
 	walk(tr, func(c *ctxStep) {
